@@ -261,6 +261,10 @@ def r11_3(dk, R, spec):
         elif res and res[0] == "case" and res[1] == cut:
             arms = dict(res[2])
             some = arms.get("Some")
+        elif res and res[0] == "if" and U.show(cut) in U.show(res):
+            # `let (parent, inner) = self.as_inner().rsplit_once('$')?;` - the `?` on the Option is the `None => None` arm; the rest of the
+            # body (projections of the same cut) is the Some arm
+            arms, some = {"_": none}, res
         if some is not None:
             if arms.get("_") == none and some is not None:
                 if some[0] == "if" and some[2] == pair and some[3] == none:
